@@ -158,3 +158,10 @@ GROUPS += [
           functions=["is_marker_line"], props=["C11", "C17"],
           assumed=["rdr/mps_scan_marker: static is_marker_line called through goto-cc --export-file-local-symbols; strncmp / strchr are CBMC's models"]),
 ]
+
+GROUPS += [
+    Group("lp/integer", "lp_integer.c", tus=["lp_mpq.c"], model=MODEL, dfcc=False, export_static=True, unwind=6, kind="bounded", namebuf=512, timeout=900,
+          bound="every stream of at most 3 tokens (known / unknown column name, non-name) followed by a section keyword, 2 columns; loops completely unwound",
+          must_fail=["reach_end", "reach_both_columns"], functions=["read_integer", "read_colname"], props=["C10", "C11", "C17"],
+          assumed=["lp/integer: static read_integer called through goto-cc --export-file-local-symbols; the scanner is a token cursor, the symbol table lookup a stub"]),
+]
